@@ -192,3 +192,29 @@ def binding_selftest(ck, verdicts, maxsteps=60000, n=24):
         else:
             raise vlib.Infra("binding self-test: a corrupted record (%s, session %s) was accepted by the specification" % (what, v.session["id"]))
     ck.part("binding self-test (corrupted records must be rejected)", corrupted=len(made), rejected=rejected)
+
+
+def symbolic_float_selftest(ck, verdicts, maxsteps=60000, n=6):
+    """Binding self-test of the symbolic floats: in accepted float-chain sessions, replace the recorded value of the chain computed in one
+    piece (item 4) by the recorded value of its first step (item 2): CalcSem must reject the record at that item."""
+    import copy
+    made = []
+    for v in verdicts:
+        if len(made) >= n:
+            break
+        if v.status != "accept" or "float-chain" not in v.session.get("meta", {}) or not getattr(v, "tlc_in", None):
+            continue
+        ts = copy.deepcopy(v.tlc_in)
+        if ts["rec"][3].get("val") == ts["rec"][1].get("val"):
+            continue
+        ts["rec"][3]["val"] = copy.deepcopy(ts["rec"][1]["val"])
+        ts["id"] = 9100000 + len(made)
+        made.append(ts)
+    if not made:
+        return
+    res = sess.judge_recorded(made, maxsteps=maxsteps, ck=ck, part="binding self-test of the symbolic floats (a corrupted chain value must be rejected)")
+    for ts in made:
+        st, d = res.get(ts["id"], ("lost", None))
+        if st != "diverge" or d.get("item") != 4:
+            raise vlib.Infra("binding self-test of the symbolic floats: a corrupted chain value was not rejected at its statement (%s)" % st)
+    ck.part("binding self-test of the symbolic floats (a corrupted chain value must be rejected)", corrupted=len(made), rejected=len(made))
